@@ -116,3 +116,22 @@ func crossEndCase(c *h.Case) {
 		}
 	}
 }
+
+// roundTripToServer: client structure -> registration message -> wire -> server-side reconstruction.
+func roundTripToServer(cli v1.ProxyConfigurer, s *v1.ServerConfig) (v1.ProxyConfigurer, error) {
+	var m msg.NewProxy
+	cli.MarshalToMsg(&m)
+	var buf bytes.Buffer
+	if err := msg.WriteMsg(&buf, &m); err != nil {
+		return nil, err
+	}
+	raw, err := msg.ReadMsg(&buf)
+	if err != nil {
+		return nil, err
+	}
+	m2, ok := raw.(*msg.NewProxy)
+	if !ok {
+		return nil, fmt.Errorf("decoded as %T", raw)
+	}
+	return config.NewProxyConfigurerFromMsg(m2, s)
+}
